@@ -21,7 +21,7 @@ CONSTANTS Period,      \* housekeeping period              1000
           Batch,       \* largest batch                      32
           RejoinMs,    \* reconnect bound after a repair  30000
           MaxL,
-          Check        \* which properties' clauses are asserted: a subset of {"C01", "C04", "C06", "C07", "C08", "C09", "C14", "C20"}
+          Check        \* which properties' clauses are asserted: a subset of {"C01", "C04", "C06", "C07", "C08", "C09", "C10", "C14", "C20"}
                        \* (the observer's own state always advances; each check names its property)
 
 Rec == ndJsonDeserialize(IOEnv.TRACE)
@@ -193,7 +193,7 @@ LinkChecks(r, l) ==
    and nothing ACK-like reached the sender in between (only ACKs raise a classic window). ---- *)
 AckNow(r) == \E j \in 1..Len(r.rx) : r.rx[j].cls \in {"srtla_ack", "srt_ack", "reg3"}
 WindowChecks(r, l) ==
-    "C06" \in Check =>
+    ("C06" \in Check \/ "C10" \in Check) =>        \* C10 states the same clause for the classic reference algorithm
         \A j \in 1..Len(Kas(r, l)) :
             (j = 1 /\ ~Torn(r, l) /\ kw[l] # -1 /\ Kas(r, l)[j].kw # -1
                /\ mode = "classic" /\ modeT < kwT[l] /\ r.ev # "SetCfg"
